@@ -98,7 +98,7 @@ pub fn make_loc(p: &Prog, a: u16, b: u16, c: i16, mode: LocMode) -> Loc {
             let o = p.orig;
             let cands = [
                 0u16, 1, o.wrapping_sub(1), o, o.wrapping_add(1), 0x7FFF, 0x8000, 0xFDFE, 0xFDFF, 0xFE00, 0xFE01, 0xFFFE, 0xFFFF,
-                o.wrapping_add(n as u16), o.wrapping_add(n as u16 + 1), b,
+                o.wrapping_add(n as u16), o.wrapping_add(n as u16).wrapping_add(1), b,
             ];
             Loc::Abs(cands[idx(b, cands.len())], (a >> 3) as u8 % 6)
         }
